@@ -469,11 +469,14 @@ def make_plugin_classes():
             self.attrs = attrs or {}
             self.calls = 0
             self.fail = None
+            self.garbage = None
 
         def decorate(self, snapshot_id, context):
             self.calls += 1
             if self.fail:
                 raise self.fail
+            if self.garbage is not None:
+                return self.garbage
             from deep.api.attributes import BoundedAttributes
             return BoundedAttributes(attributes=self.attrs)
 
@@ -482,10 +485,13 @@ def make_plugin_classes():
             super().__init__(config=None)
             self.attrs = attrs or {}
             self.fail = None
+            self.garbage = None
 
         def resource(self):
             if self.fail:
                 raise self.fail
+            if self.garbage is not None:
+                return self.garbage         # a provider that answers with something that is not a Resource
             from deep.api.resource import Resource
             return Resource(self.attrs)
 
